@@ -29,8 +29,24 @@ func Reset() {
 	Mode, MaxChunk, FailAt, FailOn, Calls, Errors, Trace = 0, 0, 0, false, 0, 0, nil
 }
 
+// SetFailing makes every Read fail from now on (true) or none (false); for callers that are
+// simulated threads (see Read).
+//
+//go:norace
+func SetFailing(on bool) {
+	if on {
+		Calls, FailAt, FailOn = 0, 1, true
+	} else {
+		FailAt, FailOn = 0, false
+	}
+}
+
 type simReader struct{}
 
+// (not instrumented for the race detector: in the companion worker of the sequential checks
+// several simulated threads, which run one at a time, draw from this one source)
+//
+//go:norace
 func (simReader) Read(p []byte) (int, error) {
 	Calls++
 	core.Hit(core.PEntropyRead)
@@ -55,7 +71,19 @@ func (simReader) Read(p []byte) (int, error) {
 			p[i] = byte(core.EnvU64())
 		}
 	}
-	Trace = append(Trace, p[:n]...)
+	// (element by element: the runtime's slice copy and growth report to the race detector
+	// whatever this function is marked)
+	if len(Trace)+n > cap(Trace) {
+		nt := make([]byte, len(Trace), 2*cap(Trace)+n+64)
+		for i := range Trace {
+			nt[i] = Trace[i]
+		}
+		Trace = nt
+	}
+	for i := 0; i < n; i++ {
+		Trace = Trace[:len(Trace)+1]
+		Trace[len(Trace)-1] = p[i]
+	}
 	return n, nil
 }
 
